@@ -21,7 +21,7 @@ def run(ctx, args):
         raise Infra("static driver printed no summary:\n" + out[-2000:])
     ncases = int(m.group(1))
     fails, r = ctx.validate("Trace_Static", "Trace_Static.cfg", trace)
-    warns = re.findall(r'<<"WARN", (\d+), "([^"]*)", "([^"]*)">>', r["out"])
+    warns = [(w["line"], w["case"], w["what"]) for w in r["warns"]]
     ctx.traces = ncases
     ctx.evaluations = ncases * 150
     ctx.distinct = nbeh
